@@ -389,6 +389,46 @@ def _literal_compare(n, var):
     return None
 
 
+def _and_leaves(n):
+    n = _strip(n)
+    if n is not None and n.get("k") == "BinaryOperator" and n.get("op") == "&&":
+        for x in n.get("c") or []:
+            yield from _and_leaves(x)
+    elif n is not None:
+        yield n
+
+
+def _literal_compare_neg(n, var):
+    """literal of `var != "lit"` / `!(var == "lit")` / `strcmp(var, "lit") != 0` / `strcmp(var, "lit")`"""
+    inner, pos = _polarity(n)
+    if inner is None:
+        return None
+    k = inner.get("k")
+    c = inner.get("c") or []
+    if k == "CXXOperatorCallExpr" and inner.get("op") == "!=" and pos and len(c) == 3:
+        a, b = _strip(c[1]), _strip(c[2])
+        for x, y in ((a, b), (b, a)):
+            if _var_key(x) == var and y is not None and y.get("k") == "StringLiteral":
+                return y["v"]
+        return None
+    if not pos:
+        # !(positive comparison)
+        return _literal_compare(inner, var)
+    if k == "CallExpr" and _callee(inner) in ("strcmp", "std::strcmp"):
+        args = [_strip(a) for a in c[1:]]
+        if len(args) == 2:
+            for x, y in ((args[0], args[1]), (args[1], args[0])):
+                r = _root(x)
+                if r is not None and _var_key(r) == var and y is not None and y.get("k") == "StringLiteral":
+                    return y["v"]
+    if k == "BinaryOperator" and inner.get("op") == "!=" and len(c) == 2:
+        for x, y in ((c[0], c[1]), (c[1], c[0])):
+            xs = _strip(x)
+            if xs is not None and xs.get("k") == "CallExpr" and _callee(xs) in ("strcmp", "std::strcmp") and _zero_const(y):
+                return _literal_compare_neg(xs, var)
+    return None
+
+
 def _or_leaves(n):
     """Leaves of a disjunction a || b || c (a plain condition is its own leaf)."""
     n = _strip(n)
@@ -442,6 +482,30 @@ def analyse_handler(ctx, fn):
             lit = _literal_compare(leaf, h.name_var)
             if lit is not None:
                 h.branches.setdefault(lit, []).append(n.get("then"))
+        # the negated form: `if (name != "a" && name != "b") refuse; else accept;` - the names are
+        # accepted on the else branch (or, without an else and a then-branch that leaves, by what follows)
+        neg = []
+        for leaf in _and_leaves(n.get("cond")):
+            lit = _literal_compare_neg(leaf, h.name_var)
+            if lit is None:
+                neg = []
+                break
+            neg.append(lit)
+        if neg:
+            branch = n.get("else") if isinstance(n.get("else"), dict) else None
+            if branch is None:
+                par = fn.parent(n)
+                sib = (par.get("c") or []) if par is not None and par.get("k") == "CompoundStmt" else []
+                rest = []
+                seen = False
+                for x in sib:
+                    if seen:
+                        rest.append(x)
+                    if x is n or x.get("id") == n.get("id"):
+                        seen = True
+                branch = {"k": "CompoundStmt", "id": -n["id"], "c": rest, "line": n.get("line")}
+            for lit in neg:
+                h.branches.setdefault(lit, []).append(branch)
     return h
 
 
